@@ -11,13 +11,16 @@
 //     every Put recorded),
 //   - the real NewBaseSymlinkFactory,
 //   - a handle allocator that numbers directory objects and wraps every leaf
-//     in a link counting leaf, so that "unlinked" leaves are observable.
+//     in a link counting leaf, so that "unlinked" leaves are observable; its
+//     stateless allocator serialises the identity it is given (casFileID) and
+//     records per leaf which identity byte string it received.
 //
 // "cache" histories drive the real cas.NewCachingDirectoryFetcher over an LRU
 // eviction set and a fake base fetcher.
 package main
 
 import (
+	"bytes"
 	"context"
 	"encoding/json"
 	"errors"
@@ -137,7 +140,7 @@ func (area) Requires() string {
 }
 func (area) Check() string { return "check_case" }
 func (area) Rule() string {
-	return "tree histories (9 of 10): a CAS of 1-25 Directory messages forming a DAG (children mostly with higher index: shared subtrees; chains for deep nesting; empty directories; 3%: a back reference, i.e. a cycle in the map), 0-4 files, 0-3 directories, 0-2 symlinks each, names from a pool of 12; 20% of the CASes have 1-3 malformed messages (mostly near the root) (name \"\", \".\", \"..\", \"a/b\"; a duplicate name within or across files/directories/symlinks; digest absent, short, upper-case, non-hex or negative size), 5% reference a Directory that is not stored, 5% of blobs are not stored; then 30-80 calls (thorough: up to 200): first MergeDirectoryContents or CreateChildren of the root digest, then VirtualLookup/LookupChild, VirtualReadDir/ReadDir, VirtualOpenChild on directory objects chosen among all existing ones (biased to the newest), interleaved with VirtualMkdir/VirtualRemove/Remove/VirtualRename/VirtualLink/CreateChildren/MergeDirectoryContents and with VirtualOpenSelf (read/write/truncate), VirtualSetAttributes (size/permissions/owner), VirtualWrite, VirtualAllocate and reads on leaves; each GetDirectory fails with probability 10%; cache histories (1 of 10): 20-60 GetDirectory/GetTreeRootDirectory/GetTreeChildDirectory calls on cachingDirectoryFetcher (LRU, capacity 1-4 objects / 40-200 bytes) over 3-6 hashes x 2 instance names, Tree digests colliding with Directory digests, both key formats; non-trivial = a tree history with at least 3 successful fetches, one failed fetch and one refused mutation of a CAS backed file, or a cache history with a hit and an eviction; distinct by hash of the full case term"
+	return "tree histories (9 of 10): a CAS of 1-25 Directory messages forming a DAG (children mostly with higher index: shared subtrees; chains for deep nesting; empty directories; 3%: a back reference, i.e. a cycle in the map), 0-4 files, 0-3 directories, 0-2 symlinks each, names from a pool of 12; 20% of the CASes have 1-3 malformed messages (mostly near the root) (name \"\", \".\", \"..\", \"a/b\"; a duplicate name within or across files/directories/symlinks; digest absent, short, upper-case, non-hex or negative size), 5% reference a Directory that is not stored, 5% of blobs are not stored; 45% of the CASes get 1-2 blobs placed again in the root Directory and the Directories it names: under both executable bits in one Directory, under both bits in two Directories, the same (blob, bit) twice, or all of these, and a quarter of the calls of such a history list / look up there (the stateless handle allocator of the harness records the bytes casFileID.WriteTo writes for every CAS backed leaf; meta.json outcome_histogram ident:* counts the histories in which lookups and listings showed one blob under both bits / the same file twice); then 30-80 calls (thorough: up to 200): first MergeDirectoryContents or CreateChildren of the root digest, then VirtualLookup/LookupChild, VirtualReadDir/ReadDir, VirtualOpenChild on directory objects chosen among all existing ones (biased to the newest), interleaved with VirtualMkdir/VirtualRemove/Remove/VirtualRename/VirtualLink/CreateChildren/MergeDirectoryContents and with VirtualOpenSelf (read/write/truncate), VirtualSetAttributes (size/permissions/owner), VirtualWrite, VirtualAllocate and reads on leaves; each GetDirectory fails with probability 10%; cache histories (1 of 10): 20-60 GetDirectory/GetTreeRootDirectory/GetTreeChildDirectory calls on cachingDirectoryFetcher (LRU, capacity 1-4 objects / 40-200 bytes) over 3-6 hashes x 2 instance names, Tree digests colliding with Directory digests, both key formats; non-trivial = a tree history with at least 3 successful fetches, one failed fetch and one refused mutation of a CAS backed file, or a cache history with a hit and an eviction; distinct by hash of the full case term"
 }
 
 // ---- generator ---------------------------------------------------------------
@@ -145,7 +148,7 @@ func (area) Rule() string {
 var namePool = []string{"a", "b", "c", "bin", "lib", "x.txt", "A", "-", "d", "e", "tool", "..."}
 var targets = []string{"a", "../b", "/abs/t", "bin/tool", "x.txt"}
 
-func dirDigest(k int) jdigest  { return jdigest{H: fmt.Sprintf("%032x", 0xd000+k), S: int64(10 + k)} }
+func dirDigest(k int) jdigest { return jdigest{H: fmt.Sprintf("%032x", 0xd000+k), S: int64(10 + k)} }
 func blobDigest(k int, n int) jdigest {
 	return jdigest{H: fmt.Sprintf("%032x", 0xf000+k), S: int64(n)}
 }
@@ -240,6 +243,81 @@ func genTree(r *rng.R, thorough bool) history {
 		}
 		h.Cas = append(h.Cas, m)
 	}
+	// One blob under both executable bits, and one (blob, bit) more than
+	// once: what the identity handed to the stateless handle allocator has
+	// to keep apart / may share. Placed in the root Directory and in the
+	// Directories the root names, where exploration gets to.
+	var twinNames, twinDirs []string
+	if r.Chance(45) {
+		near := []int{0}
+		seen := map[string]bool{}
+		for _, e := range h.Cas[0].Dirs {
+			if e.D != nil && !seen[e.D.H] {
+				seen[e.D.H] = true
+				for k := 1; k < n; k++ {
+					if h.Cas[k].D.H == e.D.H {
+						near = append(near, k)
+						twinDirs = append(twinDirs, e.N)
+					}
+				}
+			}
+		}
+		add := func(k int, d jdigest, x bool) {
+			m := &h.Cas[k]
+			used := map[string]bool{}
+			for _, e := range m.Files {
+				used[e.N] = true
+			}
+			for _, e := range m.Dirs {
+				used[e.N] = true
+			}
+			for _, e := range m.Syms {
+				used[e.N] = true
+			}
+			nm := ""
+			for i := 0; i < 20 && nm == ""; i++ {
+				if s := namePool[r.Intn(len(namePool))]; !used[s] {
+					nm = s
+				}
+			}
+			if nm == "" {
+				nm = fmt.Sprintf("t%d", len(used))
+			}
+			dd := d
+			m.Files = append(m.Files, jfile{N: nm, D: &dd, X: x})
+			twinNames = append(twinNames, nm)
+		}
+		for i, c := 0, 1+r.Intn(2); i < c; i++ {
+			var d jdigest
+			if len(h.Blobs) > 0 && r.Chance(50) {
+				d = h.Blobs[r.Intn(len(h.Blobs))].D
+			} else {
+				content := fmt.Sprintf("twin-%d", nblobs)[:r.Intn(7)]
+				d = blobDigest(nblobs, len(content))
+				nblobs++
+				h.Blobs = append(h.Blobs, jblob{D: d, V: content})
+			}
+			x := r.Chance(50)
+			a, b := near[r.Intn(len(near))], near[r.Intn(len(near))]
+			switch r.Intn(4) {
+			case 0: // both bits, one directory
+				add(a, d, x)
+				add(a, d, !x)
+			case 1: // both bits, (mostly) different directories
+				add(a, d, x)
+				add(b, d, !x)
+			case 2: // the same file twice
+				add(a, d, x)
+				add(b, d, x)
+			default:
+				add(a, d, x)
+				add(a, d, !x)
+				add(b, d, x)
+				add(b, d, !x)
+			}
+		}
+	}
+
 	if malformed {
 		for i, c := 0, 1+r.Intn(3); i < c; i++ {
 			// mostly near the root, where exploration gets to
@@ -335,6 +413,24 @@ func genTree(r *rng.R, thorough bool) history {
 	}
 	for len(h.Ops) < nops {
 		o := jop{D: dirIdx(), N: name(), F: script()}
+		if len(twinNames) > 0 && r.Chance(25) {
+			// explore where the twins are: the root (object 0 after a merge,
+			// 1 after an attach), then the directories it names
+			o.D = r.Intn(2)
+			if r.Chance(40) {
+				o.D = -1 - r.Intn(3)
+			}
+			switch y := r.Intn(100); {
+			case y < 40:
+				o.K, o.V = "readdir", true
+			case y < 70 && len(twinDirs) > 0:
+				o.K, o.V, o.N = "lookup", r.Chance(60), twinDirs[r.Intn(len(twinDirs))]
+			default:
+				o.K, o.V, o.N = "lookup", r.Chance(60), twinNames[r.Intn(len(twinNames))]
+			}
+			h.Ops = append(h.Ops, o)
+			continue
+		}
 		switch x := r.Intn(100); {
 		case x < 27:
 			o.K, o.V = "lookup", r.Chance(60)
@@ -492,6 +588,18 @@ type world struct {
 
 	leaves []*trackedLeaf
 
+	// Stateless handle allocator: what casFileID.WriteTo wrote for every
+	// leaf created through StatelessHandleAllocator.New, the way the NFSv4
+	// allocator keys its statelessLeaves table. idTab holds the distinct
+	// byte strings in order of first appearance; a leaf's token is the
+	// index of its byte string.
+	idTab   [][]byte
+	idIndex map[string]int
+	idents  [][2]int             // (leaf number, token) in creation order
+	kinds   map[int]fileKind     // CAS backed leaves that were shown by a lookup or listing
+	shownIn map[int]map[int]bool // ... and by which directory objects
+	curDir  int
+
 	// fake Content Addressable Storage
 	directories map[dkey]*remoteexecution.Directory
 	blobs       map[dkey][]byte
@@ -645,10 +753,57 @@ func (h *dirHandle) GetAttributes(requested virtual.AttributesMask, attributes *
 func (h *dirHandle) NotifyRemoval(name path.Component) {}
 func (h *dirHandle) Release()                          {}
 
+// statelessAllocator stands for nfsStatelessHandleAllocator /
+// fuseStatelessHandleAllocator: the identity of the object is whatever the
+// io.WriterTo writes. The real NFSv4 allocator hashes these bytes (seeded
+// per allocator) into the inode number and returns the leaf it already has
+// for that number; this one keeps every leaf apart (so that the leaf
+// numbering of the model stays the allocation order) and records which
+// leaves would have been one file for the kernel.
 type statelessAllocator struct{ w *world }
 
 func (a statelessAllocator) New(id io.WriterTo) virtual.StatelessHandleAllocation {
-	return &handleAllocation{w: a.w}
+	var buf bytes.Buffer
+	if _, err := id.WriteTo(&buf); err != nil {
+		panic(err)
+	}
+	w := a.w
+	token, ok := w.idIndex[buf.String()]
+	if !ok {
+		token = len(w.idTab)
+		w.idIndex[buf.String()] = token
+		w.idTab = append(w.idTab, append([]byte(nil), buf.Bytes()...))
+	}
+	return &statelessAllocation{w: w, token: token}
+}
+
+type statelessAllocation struct {
+	w     *world
+	token int
+}
+
+func (h *statelessAllocation) AsStatelessAllocator() virtual.StatelessHandleAllocator {
+	panic("harness: nested AsStatelessAllocator not expected")
+}
+func (h *statelessAllocation) AsResolvableAllocator(resolver virtual.HandleResolver) virtual.ResolvableHandleAllocator {
+	panic("harness: AsResolvableAllocator not expected")
+}
+func (h *statelessAllocation) AsStatelessDirectory(directory virtual.Directory) virtual.Directory {
+	panic("harness: AsStatelessDirectory not expected")
+}
+func (h *statelessAllocation) AsLeaf(leaf virtual.Leaf) virtual.Leaf {
+	panic("harness: AsLeaf not expected")
+}
+func (h *statelessAllocation) AsLinkableLeaf(leaf virtual.LinkableLeaf) virtual.LinkableLeaf {
+	t := h.w.track(leaf)
+	h.w.idents = append(h.w.idents, [2]int{t.id, h.token})
+	return t
+}
+
+type fileKind struct {
+	h string
+	s int64
+	x bool
 }
 
 // symlink factory: the real one, its symlinks wrapped for link counting
@@ -818,6 +973,7 @@ func (w *world) ldesc(t *trackedLeaf) string {
 			return "LLocal"
 		}
 		perm, _ := a.GetPermissions()
+		w.kinds[t.id] = fileKind{p.Digest.GetHashString(), p.Digest.GetSizeBytes(), perm&virtual.PermissionsExecute != 0}
 		return g.App("LFile", digestTerm(p.Digest.GetHashString(), p.Digest.GetSizeBytes()), g.Bool(perm&virtual.PermissionsExecute != 0))
 	}
 	return "LLocal"
@@ -835,6 +991,10 @@ func (w *world) childTerm(directory virtual.Directory, leaf virtual.Leaf) string
 	if !ok {
 		return "(DLeaf 99999 LLocal)"
 	}
+	if w.shownIn[t.id] == nil {
+		w.shownIn[t.id] = map[int]bool{}
+	}
+	w.shownIn[t.id][w.curDir] = true
 	return g.App("DLeaf", fmt.Sprint(t.id), w.ldesc(t))
 }
 
@@ -906,7 +1066,8 @@ func (area) Execute(raw json.RawMessage) (term string, info *hcommon.Info, err e
 		return executeCache(h, info)
 	}
 	ctx := context.Background()
-	w := &world{dirID: map[virtual.Directory]int{}, directories: map[dkey]*remoteexecution.Directory{}, blobs: map[dkey][]byte{}}
+	w := &world{dirID: map[virtual.Directory]int{}, directories: map[dkey]*remoteexecution.Directory{}, blobs: map[dkey][]byte{},
+		idIndex: map[string]int{}, kinds: map[int]fileKind{}, shownIn: map[int]map[int]bool{}}
 
 	// The CAS. First message of a digest wins, as in the model.
 	var casTerms, blobTerms []string
@@ -1015,6 +1176,7 @@ func (area) Execute(raw json.RawMessage) (term string, info *hcommon.Info, err e
 		}
 		di := dir(o.D)
 		d := w.dirs[di]
+		w.curDir = di
 		hang := call(func() {
 			switch o.K {
 			case "merge":
@@ -1236,7 +1398,103 @@ func (area) Execute(raw json.RawMessage) (term string, info *hcommon.Info, err e
 		}
 	}
 	info.Nontrivial = okFetches >= 3 && failedFetches >= 1 && refused >= 1
-	return (g.App("mkCase", g.List(casTerms), g.List(blobTerms), g.List(ops), g.List(outs))), info, nil
+	return (g.App("mkCase", g.List(casTerms), g.List(blobTerms), g.List(ops), g.List(outs), w.identTerm(info))), info, nil
+}
+
+// identTerm prints what the stateless handle allocator was given: the
+// digest function / instance name the keys are made with, (leaf, token) for
+// every leaf created through it, and the distinct identity byte strings by
+// token. It also counts what this history exercises of the identity.
+func (w *world) identTerm(info *hcommon.Info) string {
+	var idents, tab []string
+	for _, e := range w.idents {
+		idents = append(idents, "("+fmt.Sprint(e[0])+", "+g.N(uint64(e[1]))+")")
+	}
+	maxLen := 0
+	for _, id := range w.idTab {
+		var bs []string
+		for _, c := range id {
+			bs = append(bs, fmt.Sprint(int(c)))
+		}
+		if len(bs) == 0 {
+			tab = append(tab, "[]")
+		} else {
+			tab = append(tab, g.List(bs)+"%N")
+		}
+		if len(id) > maxLen {
+			maxLen = len(id)
+		}
+	}
+	if len(w.idTab) > info.Extra["max_distinct_handle_identities"] {
+		info.Extra["max_distinct_handle_identities"] = len(w.idTab)
+	}
+	if maxLen > info.Extra["max_handle_identity_bytes"] {
+		info.Extra["max_handle_identity_bytes"] = maxLen
+	}
+
+	// Which pairs of leaves did lookups / listings show?
+	type dk struct {
+		h string
+		s int64
+	}
+	created := map[int]bool{}
+	for _, e := range w.idents {
+		created[e[0]] = true
+	}
+	var shown []int
+	for id := range w.kinds {
+		if created[id] && len(w.shownIn[id]) > 0 {
+			shown = append(shown, id)
+		}
+	}
+	sort.Ints(shown)
+	bothBits, bothBitsSameDir, bothBitsOtherDir, sameTwice := 0, 0, 0, 0
+	for i, a := range shown {
+		for _, b := range shown[i+1:] {
+			ka, kb := w.kinds[a], w.kinds[b]
+			if (dk{ka.h, ka.s}) != (dk{kb.h, kb.s}) {
+				continue
+			}
+			if ka.x == kb.x {
+				sameTwice++
+				continue
+			}
+			bothBits++
+			same, other := false, false
+			for da := range w.shownIn[a] {
+				for db := range w.shownIn[b] {
+					if da == db {
+						same = true
+					} else {
+						other = true
+					}
+				}
+			}
+			if same {
+				bothBitsSameDir++
+			}
+			if other {
+				bothBitsOtherDir++
+			}
+		}
+	}
+	count := func(key string, n int) {
+		if n > 0 {
+			info.Outs["ident:histories-"+key]++
+		}
+		if n > info.Extra["max_pairs_"+key] {
+			info.Extra["max_pairs_"+key] = n
+		}
+	}
+	count("shown-one-blob-both-executable-bits", bothBits)
+	count("shown-both-bits-in-one-directory", bothBitsSameDir)
+	count("shown-both-bits-in-different-directories", bothBitsOtherDir)
+	count("shown-same-file-twice", sameTwice)
+	if len(w.idents) > len(w.idTab) {
+		info.Outs["ident:histories-identity-reused"]++
+	}
+	fn := fmt.Sprint(int(remoteexecution.DigestFunction_MD5))
+	return g.App("mkIds", g.Str(fn), g.Str(digestFunction.GetInstanceName().String()), g.List(idents), g.List(tab))
 }
 
 // ---- cachingDirectoryFetcher -----------------------------------------------
